@@ -458,9 +458,9 @@ func genEPUB(c *fw.Ctx, idx int, o genOpts) ([]byte, *pkgModel) {
 	// '+' changes nothing else
 	for i := range names {
 		style := naming
-		pick := r.Intn(6)
+		pick := r.Intn(7)
 		if naming == "mixed" {
-			style = []string{"plain", "subdir", "space", "plus", "nonascii", "updir"}[pick]
+			style = []string{"plain", "subdir", "space", "plus", "nonascii", "updir", "percent"}[pick]
 		}
 		if style == "updir" && depth == 0 {
 			style = "subdir"
@@ -489,6 +489,11 @@ func genEPUB(c *fw.Ctx, idx int, o genOpts) ([]byte, *pkgModel) {
 		case "updir":
 			rel = fmt.Sprintf("../shared/ch%d.xhtml", nums[i])
 			f.add("href=dot-dot-segment")
+		case "percent":
+			// the file name itself contains a percent sign followed by hex digits
+			// (href spells it %25..): decoding the href twice names another file
+			rel = fmt.Sprintf("text/%s%d.xhtml", []string{"ch%20no", "100%41x", "a%2Fb"}[nums[i]%3], nums[i])
+			f.add("href=literal-percent-in-name")
 		}
 		names[i] = cleanJoin(opfDir, rel)
 	}
